@@ -9,7 +9,7 @@ META = {
         "technique": "property-based testing (rapid), stateful model-based oracle",
     },
     "C16": {
-        "text": "The real ChannelMapping is explored with random offer sequences for all count pairs 0..6 and exhaustively for counts 1..3 with sequences up to length 5/6, checking function/stability/quota/totality on public queries only. The exhaustive part is complete for its bound; larger counts are sampled. Layer 2 (TestC16_Manager): the real channel manager over contended catalogs with equal channel counts; the assignment is read off the tick-only packs and must be stable and one-to-one. It found the known finding F-C16-stale-forward.",
+        "text": "The real ChannelMapping is explored with random offer sequences for all count pairs 0..6 and exhaustively for counts 1..3 with sequences up to length 5/6, checking function/stability/quota/totality on public queries only. The exhaustive part is complete for its bound; larger counts are sampled. Layer 2 (TestC16_Manager): the real channel manager over contended catalogs with equal channel counts; the assignment is read off the tick-only packs and must be stable and one-to-one. It found the known finding F-C16-stale-forward. TestC16_FailedStart injects a failing connection check when the handler of a newly assigned pair is created and offers the pair again: nothing may be left behind by the failed start.",
         "design_ref": "DESIGN.md section 4 C16",
         "note": "Layer 1 covers the quota check in ChannelMapping through the manager's direct-assignment protocol restated in the harness; the manager's wait/forward path is covered by the reader harness where registered.",
         "technique": "property-based testing (rapid) + bounded exhaustive enumeration, invariant oracle",
